@@ -30,6 +30,9 @@ HIST = [
     Ctx("h-after-typedef", ["typedef", "int", "T", ";"], domain=SIGMA_H),
     Ctx("h-in-function", ["typedef", "int", "x", ";", "void", "y", "(", "void", ")", "{"], domain=SIGMA_H),
     Ctx("h-typedef-last", ["typedef", "int", "T", ";", "T"], domain=SIGMA_H),
+    # histories that end (fail) several braces deep, with parameters and block-scope typedefs in the open scopes
+    Ctx("h-deep3", ["void", "y", "(", "int", "T", ")", "{", "typedef", "int", "x", ";", "{", "{"], domain=SIGMA_H),
+    Ctx("h-deep5", ["typedef", "int", "T", ";", "void", "y", "(", "void", ")", "{", "{", "int", "T", ";", "{", "typedef", "int", "x", ";", "{", "{"], domain=SIGMA_H),
 ]
 SECOND = [
     Ctx("t-file", [], domain=SIGMA_T),
@@ -169,7 +172,7 @@ def main():
         jobs = []
         for hc in HIST:
             for tc in SECOND:
-                for hn in range(0, nh + 1):
+                for hn in range(0, (nh - 1 if hc.name.startswith("h-deep") else nh) + 1):
                     if checklib.tier() == "quick" and hn == nh and tc.name == "t-function":
                         continue  # the largest product is left to the thorough tier
                     jobs.append((hc, hn, tc, nt, False))
@@ -210,6 +213,22 @@ def main():
                         "if bad: print('VIOLATION reproduced: reused CGenerator differs'); sys.exit(1)\nsys.exit(0)\n"
                     )
                     report.violations.append({"sig": "generator-reuse", "what": what, "replay": checklib.write_replay(PID, what, body)})
+        # reused generator on the repository's own snippets as well (concrete, complementary): they contain the rare
+        # shapes the small input alphabet lacks (empty struct bodies, nested declarations, pragmas ...)
+        for sn in checklib.repo_test_snippets():
+            gen_checked += 1
+            d = generator_reuse(native_parser, native_gen, sn)
+            if d:
+                what = f"generator-reuse: {d} on {sn[:200]!r}"
+                body = (
+                    "from pycparser.c_parser import CParser\nfrom pycparser.c_generator import CGenerator\n"
+                    f"ast = CParser().parse({sn!r})\n"
+                    "bad = False\nfor rp in (False, True):\n    g = CGenerator(reduce_parentheses=rp); a = g.visit(ast); lvl = g.indent_level; b = g.visit(ast)\n"
+                    "    if lvl != 0 or a != b or a != CGenerator(reduce_parentheses=rp).visit(ast): bad = True\n"
+                    "if bad: print('VIOLATION reproduced: reused CGenerator differs'); sys.exit(1)\nsys.exit(0)\n"
+                )
+                report.violations.append({"sig": "generator-reuse", "what": what, "replay": checklib.write_replay(PID, what, body)})
+                break
         report.extra["generator_reuse_programs"] = gen_checked
         for sig, vs in sorted(cands.items()):
             vs.sort(key=lambda v: len(v["hist"]) + len(v["toks"]))
